@@ -5,27 +5,6 @@ import BSModel.Proofs.TokenizerWholeToks
 namespace BS.WriterText
 open BS.Writer BS.Tokenizer BS.SourcePos
 
-/-! ### the condition on the text -/
-
-/-- at this suffix no `</` begins, or the character after it is neither whitespace nor (case-insensitively, `re.I`)
-    the first letter `n0` of the element's name: `</\s*name\s*>` cannot match here -/
-def rawSafeAt (n0 : Nat) : PStr → Bool
-  | a :: b :: c :: _ => !(a == 60 && b == 47) || (!isWs c && !ciEq n0 c)
-  | _ => true
-
-def rawSafe (n0 : Nat) : PStr → Bool
-  | [] => true
-  | c :: t => rawSafeAt n0 (c :: t) && rawSafe n0 t
-
-/-- **what the text of a written `<script>`/`<style>` element must respect** (decidable, sufficient): every `</` in
-    `text ++ "<"` (the `<` of the element's own end tag, so a text ending in `</` is judged too) is followed by a character
-    that is neither whitespace nor the first letter of the element's name in either case (nor `ſ`, which `re.I` equates
-    with `s`). `<`, `&`, `</p>`, `<!--`, `&amp;` are all fine: nothing in raw text is markup.
-    The exact condition of the model is "`</\s*name\s*>` (`re.I`) matches nowhere in `text`"
-    (`search (mCdataClose name) (text ++ closeText name ++ rest) = some (text.length, _)`, hypothesis `hs` of
-    `step_raw_body`); this one is what a writer can check character by character. -/
-def rawTextOK (n t : PStr) : Bool := rawSafe (n.headD 0) (t ++ [60])
-
 theorem mCdataClose_none_short (n : PStr) (a : Nat) (r : PStr) : mCdataClose n (a :: 60 :: r) = none := by
   simp [mCdataClose, sw]
 
